@@ -3,6 +3,7 @@ import itertools
 import subprocess
 from common import *
 import gen
+import timedcheck
 
 CUTTERS = ["(take 1)", "(take 2)", "(first)", "(first_or 9)", "(element_at 1)", "(take_while (lt 2))", "(take_while_inclusive (lt 1))",
            "(contains 1)", "(all (lt 2))"]
@@ -128,7 +129,17 @@ def run(tier, seed, replay=None):
     proof_stage(rep, "C16")
     if not build_stage(rep):
         return rep.finish()
-    cases = load_replay_case(replay) if replay else iter_cases(tier, rng) + stream_cases(tier, rng) + interval_cases(tier, rng)
+    # the periodic flush task of buffer_with_time works on the subscriber's behalf too: once the downstream reports finished it
+    # must retire at its next tick, whatever is in the buffer (observed through is_closed() of the subscription)
+    flush = timedcheck.op_cases([("(buffer_with_time 5)", 5), ("(buffer_with_count_and_time 2 5)", 5)], tier, rng,
+                                exh_len=3, nrand=1500, finish=True)
+    # a subject does not hand its terminal to an observer that reports finished (it filters them): the timed model has no
+    # such input, so label sequences with an input terminal after `finish` are left out
+    def term_after_finish(text):
+        i = text.find(" finish")
+        return i >= 0 and ("(src c)" in text[i:] or "(src (e" in text[i:])
+    flush = [c for c in flush if not term_after_finish(c[1])]
+    cases = load_replay_case(replay) if replay else iter_cases(tier, rng) + stream_cases(tier, rng) + interval_cases(tier, rng) + flush
     correspond(rep, "C16", cases, "C16_cut_reaches_producer / C16_iterator_stops_at_cut / C16_stream_stops_when_finished / "
                                   "C16_interval_retires_within_one_period / C16_source_agrees_*")
     c = rep.coverage
@@ -144,7 +155,9 @@ def run(tier, seed, replay=None):
                  "input a create() script (iterator) or a subject driven by the case (interval); chains: each of 9 cutting operators alone, with each "
                  "of 34 intermediates (the single-input operators, and flat_map / concat_map over of(v) and group_by followed by flat_map as higher-order "
                  "stages) before it and after it, and random chains of depth 3-5; plus chains without a cutter; local and _threads forms; "
-                 "judged by the specification (the model with every observer forwarding: pulls / liveness / trace must agree exactly)")
+                 "judged by the specification (the model with every observer forwarding: pulls / liveness / trace must agree exactly); the flush task "
+                 "of buffer_with_time / buffer_with_count_and_time under label sequences in which the downstream starts to report finished, its "
+                 "liveness read through is_closed()")
     rep.assumptions = ["the table of `fn is_finished` bodies is regenerated from /repo/src by tools/gen_isfinished.py (syntactic classification) on every run",
                        "throttle / debounce / delay / observe_on observers forward is_finished too (see the generated table) but are not placed between "
                        "producer and cutter by the dynamic cases: behind them the end of the stream happens in a later task, after a synchronous producer has run"]
